@@ -130,6 +130,7 @@ type Ret struct {
 	NN     bool   `json:"nn,omitempty"`       // schemabuilder.NonNullable
 	ElemNN bool   `json:"elem_nn,omitempty"`  // schemabuilder.ListEntryNonNullable
 	NoNull bool   `json:"no_null,omitempty"`  // the world never yields nil here although the type is a pointer
+	Wide   int    `json:"wide,omitempty"`     // with List (of objects): the list has this many elements, over 61 object ids
 }
 
 type Field struct {
@@ -258,11 +259,16 @@ func (w *World) Value(typ string, id int64, field string, args string, ret Ret, 
 			if (h>>20)%5 == 0 {
 				n = 0
 			}
+			if ret.Wide > 0 {
+				n = ret.Wide
+			}
 			l := make([]interface{}, 0, n)
 			for i := 0; i < n; i++ {
 				hi := hash(h, "elem", fmt.Sprint(i))
 				if canNull && !ret.ElemNN && hi%5 == 0 {
 					l = append(l, nil)
+				} else if ret.Wide > 0 && ret.Kind == "obj" {
+					l = append(l, Ref{ret.Target, int64((hi >> 5) % 61)})
 				} else {
 					l = append(l, w.one(ret, colors, hi>>3))
 				}
